@@ -23,7 +23,7 @@ META = {
     "solver terms across the process boundary: it is exercised only in the witness runs (concrete solver models, 3 strategies on 2 "
     "workers, in a fresh interpreter) whose comparison is reported as a WITNESS-only check.",
     "bounds": ["<= 3 strategies, 4 bars, one Uniswap market; amounts in [1e-3, 2] ETH / [1, 3000] USDC", "worker counts: 1 (solver-decided); 2 workers with 3 strategies only in witness runs"],
-    "outside": ["the forked Pool path and scheduler interleavings as a solver-decided claim (process boundary)", "market mixes other than one Uniswap pool"],
+    "outside": ["the forked Pool path and scheduler interleavings as a solver-decided claim (process boundary)", "market mixes other than one Uniswap pool, and one Uniswap pool + an hourly option market with capped / plain buyers and sellers"],
     "assumptions": ["strategies are deterministic functions of their snapshots and notifications"],
 }
 SHADOWS = bars.ACTUATOR_SHADOWS + ("demeter.core.backtest",)
